@@ -1250,6 +1250,30 @@ func (x *Exec) evalBuiltinSpec(ce *CEnv, name string, args []Expr) (*Val, bool) 
 			return &Val{Typ: boolT, T: x.b.Cmp("<", x.sRef(x.asTerm(v)), wm)}, true
 		}
 		cfail("allocated() needs a pointer, map, channel or slice")
+	case "fresh":
+		// fresh(p): the reference p holds now was allocated after the old state
+		// (function entry, or loop entry inside old()): it lies at or above the old
+		// allocation watermark and below the current one.
+		v := x.eval(ce, args[0])
+		if _, ok := x.heapSorts["G_alloc"]; !ok {
+			x.heapSorts["G_alloc"] = "Int"
+		}
+		ost := ce.old
+		if ost == nil {
+			ost = ce.st
+		}
+		wm0 := x.getHeap(ost, "G_alloc")
+		wm1 := x.getHeap(ce.st, "G_alloc")
+		var r *smt.Term
+		switch v.Typ.Underlying().(type) {
+		case *types.Pointer, *types.Map, *types.Chan:
+			r = x.asTerm(v)
+		case *types.Slice:
+			r = x.sRef(x.asTerm(v))
+		default:
+			cfail("fresh() needs a pointer, map, channel or slice")
+		}
+		return &Val{Typ: boolT, T: x.b.And(x.b.Cmp(">=", r, wm0), x.b.Cmp("<", r, wm1))}, true
 	case "has":
 		m := x.eval(ce, args[0])
 		mt, ok := m.Typ.Underlying().(*types.Map)
